@@ -18,7 +18,7 @@ func init() {
 		Run: runC17, Workers: 16, GOMAXPROCS: 4,
 		QuickTimeout: 5 * time.Minute, ThoroughTimeout: 30 * time.Minute,
 		QuickFloor: 1500, ThoroughFloor: 30000,
-		RequiredCounters: []string{"calls_judged", "gated_calls", "CcallSpawned"},
+		RequiredCounters: []string{"calls_judged", "gated_calls", "second_calls_with_same_slice", "CcallSpawned"},
 		Rule: "each case is one CallConcurrently call with scripted functions; the space n<=4 functions x {nil entry, return nil, return unique error, return context.Canceled value} x {caller held at the post-spawn schedule point until every function finished, free} is enumerated completely " +
 			"(coverage.exhaustive_subspace), larger n, wait-for-context functions, start delays and caller cancellation are seed-sampled; non-trivial = at least two functions with different outcomes; distinct = distinct (script, observed completion order, result) shapes",
 		Assumptions: append([]string{"functions are harness closures that stamp entry/return on the case's logical clock and keep the context they were given"}, commonAssumptions...),
@@ -323,6 +323,34 @@ func ccallCase(c *mon.Case, sc ccScript, sampled bool) {
 		if p := f.ctx.Load(); p != nil && (*p).Err() == nil {
 			c.Violate("ccall", "ccall-ctx-not-cancelled", "the context given to function %d of %s is still live after the call returned %v", i, sc, res.err)
 			return
+		}
+	}
+	// the argument slice belongs to the caller: calling again with the same slice runs every non-nil function once more
+	allNil, hasNilEntry := true, false
+	for _, f := range fns {
+		switch f.outcome {
+		case ccNilEntry:
+			hasNilEntry = true
+		case ccRetNil:
+		default:
+			allNil = false
+		}
+	}
+	if allNil && hasNilEntry && nonNil > 0 && sc.CancelCaller == 0 && res.err == nil && !c.Violated() {
+		err2 := ccall.CallConcurrently(ctx, args...)
+		if !mon.Quiesce(5 * time.Second) {
+			c.Inconclusive("no quiescence after the second call")
+			return
+		}
+		c.Count("second_calls_with_same_slice", 1)
+		for i, f := range fns {
+			if f.outcome == ccNilEntry {
+				continue
+			}
+			if k := f.calls.Load(); k != 2 || err2 != nil {
+				c.Violate("ccall", "ccall-invocation-count", "a second CallConcurrently with the same argument slice %s returned %v and function %d has now been invoked %d times in total (want 2: once per call)", sc, err2, i, k)
+				return
+			}
 		}
 	}
 	callerCancelled := cancelStamp.Load() != 0 && cancelStamp.Load() < res.retStamp
